@@ -292,7 +292,7 @@ class Real:
         for root, dirs, names in os.walk(self.work):
             for n in names:
                 rel = os.path.relpath(os.path.join(root, n), self.work)
-                if rel in (".ninja_log", ".ninja_deps", ".ninja_lock"):
+                if os.path.basename(rel) in (".ninja_log", ".ninja_deps", ".ninja_lock"):
                     continue
                 data = open(os.path.join(root, n), "rb").read().decode("latin-1")
                 if rel == "build.ninja" or rel.endswith(".ninja"):
